@@ -221,6 +221,7 @@ class Run:
         self.payload_pos = 0
         self.others = []
         self.close_task = None
+        self.at_close = None
         self.pre = None
         self.other_keys = set()
         self.bind_log_base = 0
@@ -230,13 +231,19 @@ class Run:
         net, srv = self.net, self.srv
         # a transport whose close() has been called is released by its owner (connection_lost follows at once)
         st = [t for t in net.open_transports("server") if not t.closing]
-        me = {asyncio.current_task()} | self.harness_tasks | {d.task for d in self.data if d.task}
+        cur = asyncio.current_task()
+        if cur is not None and getattr(cur.get_coro(), "__qualname__", "").startswith("Server."):
+            cur = None  # called from inside the server (the spies): its own task counts
+        me = {cur} | self.harness_tasks | {d.task for d in self.data if d.task}
         tasks = []
         for t in asyncio.all_tasks():
             if t in me or t.done():
                 continue
             co = t.get_coro()
-            tasks.append(getattr(co, "__qualname__", repr(co)))
+            name = getattr(co, "__qualname__", repr(co))
+            if name.startswith("run.<locals>.") or name.startswith("run_case.<locals>."):
+                continue  # simnet's / this module's own driver tasks
+            tasks.append(name)
         pool = srv.available_data_ports
         umax = [u.maximum_connections for u in srv.user_manager.users]
         uval = [srv.user_manager.available_connections[u].value for u in srv.user_manager.users]
@@ -301,6 +308,8 @@ class Run:
         elif how == "close":
             self.close_task = asyncio.ensure_future(self.srv.close())
             self.harness_tasks.add(self.close_task)
+            # what is left at the very instant Server.close() returns
+            self.close_task.add_done_callback(lambda _f: setattr(self, "at_close", self.ledger()))
         else:
             raise ValueError(how)
 
